@@ -29,6 +29,9 @@ CLAIMED = {
  'C03': dict(level='model_checking', technique="bounded symbolic execution (z3): identity snapshot of every path outside the managed set before/after each API call, plus an allow-list over the library's mutating system calls",
              text='Every universe path may initially be a foreign file or directory and mutations plant more; after every build (committed or rolled back) and clean the (inode, content id, mtime) of all foreign files must be unchanged (validity query) and no directory outside the recorded created set may disappear; every remove/rename/rmdir/rmtree/open-for-write the library issues is checked against the managed set.',
              note='Trusted: environment model and its call log, reference model for the managed set, z3.'),
+ 'C05': dict(level='model_checking', technique='bounded symbolic execution (z3) with a justification oracle computed from two from-scratch reference traces; invoked => justified as a validity query; strict unchanged rebuilds',
+             text='For every committed build of histories B.M.B.B.B each function invocation in the next build must be justified (no successful record, changed observation trace in its recorded subtree, changed output, nested setup failure); unchanged rebuilds may only re-run calls that raised, must not rewrite outputs (inode, mtime) and must return an equal value.',
+             note="Trusted: environment model, reference model and its traces as the definition of 'observed', z3."),
 }
 NA_REASON = 'check not built yet in this round (work in progress; see DESIGN.md section 12)'
 
